@@ -219,7 +219,7 @@ fn shard(seed: u64, shard: u64, n: u64) -> Tally {
 /// accessors equal the model's sets.
 fn containers(seed: u64, shard: u64, n: u64) -> Tally {
     let mut t = Tally::new();
-    let names = ["Host", "X-Amz-Date", "x-amz-date", "X-AMZ-DATE", "Content-Type", "x-custom", "X-Custom", "a", "A", "x-amz-", "X-Amz-"];
+    let names = ["Host", "X-Amz-Date", "x-amz-date", "X-AMZ-DATE", "Content-Type", "x-custom", "X-Custom", "a", "A", "x-amz-", "X-Amz-", "x-amz-meta-", "X-Amz-Meta", "x", "X-", "", "x-amz", "ab", "Abc"];
     for i in 0..n {
         let mut r = Rng::keyed(seed, "C05", "containers", shard, i);
         let init: Vec<&str> = (0..r.usize_below(3)).map(|_| *r.pick(&names)).collect();
